@@ -420,6 +420,7 @@ def specS1 (iface : Bool) : S1 → List Int → List Int
   | .filter k, l => Spec.filterIdx (Spec.predFn k) l
   | .reject k, l => Spec.rejectIdx (Spec.predFn k) l
   | .notnil, l => Spec.notNil iface l
+  | .notnilp, l => Spec.notNilPtr l
   | .distinct, l => Spec.distinct l
   | .clone, l => l
   | .reverse, l => l.reverse
@@ -445,6 +446,11 @@ theorem execS1_content (iface : Bool) {w : World} (hw : Wf w) {p : Nat} (hp : p 
     | true =>
       simp only [Spec.filterIdx, Spec.notNil, Bool.not_true, Bool.false_or, if_true]
       exact filterIdxFrom_noidx _ _ _
+  | notnilp =>
+    simp only [execS1, specS1, strFilter]
+    rw [strContent_newStream]
+    simp only [Spec.filterIdx, Spec.notNilPtr]
+    exact filterIdxFrom_noidx _ _ _
   | distinct => exact strContent_newStream _ _ _
   | clone => exact strClone_content w p
   | reverse => exact strContent_newStream _ _ _
